@@ -741,9 +741,15 @@ static jv *decode_runs(int h, const uint8_t *buf, long n)
 
 static void fork_child_epilogue(int h, long r);
 
+/* what the application left in errno before the call is its own business: no result or effect of a call may depend on it.
+   Every call is entered with a different left-over value (fixed per position in the script, so a re-run repeats it). */
+static int ncalls_script;
+static const int stale_errno[] = { EBADF, 0, EINTR, EAGAIN, ENOENT, EPIPE, EMFILE, EINVAL };
+
 static long do_call(jv *c, jv **extra)
 {
   const char *fn = j_str(c, "fn", "");
+  errno = stale_errno[ncalls_script++ % (int) (sizeof stale_errno / sizeof stale_errno[0])];
   int h = (int) j_int(c, "h", 0);
   reproc_t *p = (h > 0 && h < MAXH) ? H[h] : NULL;
   long r = 0;
@@ -1517,7 +1523,7 @@ static void run_line(char *line, int idx)
   const char *err;
   j_reset();
   trace = NULL; cur_call = NULL; cur_keys = NULL; soft_div = NULL; soft_offset = 0; soft_offset_fd = 0; in_conc = 0; drop_kept();
-  errno = 0;   /* (every script starts as its replay alone would: nothing left over from the previous script of the batch) */
+  errno = 0; ncalls_script = 0;   /* (every script starts as its replay alone would: nothing left over from the previous script of the batch) */
   if (!strncmp(line, "<<\"BEH\", \"", 10)) {
     /* TLC PrintT of <<"BEH", ToJson(hist)>>: a TLA+ string literal; undo its escaping in place */
     char *o = line, *q = line + 10;
